@@ -296,6 +296,24 @@ def column_sweep(ctx):
                     diffs = differences(a, b, {})
                     for kind, text in diffs:
                         ctx.viol(f"{kind}:header-case:{key}", f"column sweep, T={done} ({fmt}): {text}"[:900], _wit(form, done, {}, fmt, ts))
+            # every documented alias of the column, alone, also upper-cased
+            table = {"survey": spelling.SURVEY_ALIASES, "choices": spelling.CHOICES_ALIASES, "settings": spelling.SETTINGS_ALIASES}[key]
+            for alt in table.get(h, ()):
+                for variant in (alt, alt.upper() if "::" not in alt else alt.split("::")[0].upper() + "::" + alt.split("::", 1)[1]):
+                    if variant != alt and ":" in alt and "::" not in alt:
+                        continue  # 'jr:count' is an attribute name spelled with its prefix: its letter case is not a documented freedom
+                    n += 1
+                    if not ctx.mine(n):
+                        continue
+                    ts = dict(sheets)
+                    ts[key] = (hdrs[:ci] + [variant] + hdrs[ci + 1:], rows)
+                    b = drive.convert_sheets(ts, args=form.args)
+                    ctx.ctr("column_sweep_pairs")
+                    ctx.ctr("pairs_compared")
+                    ctx.case(sig=f"sweep|{key}|{h}|alias|{variant}")
+                    done = [f"header-alias:{key}:{h}->{variant}"]
+                    for kind, text in differences(a, b, {}):
+                        ctx.viol(f"{kind}:header-alias:{key}", f"column sweep, T={done}: {text}"[:900], _wit(form, done, {}, "dict", ts))
 
 
 def run_shard(ctx):
